@@ -248,3 +248,71 @@ example : (step { (init 1) with objs := [⟨1, 3⟩], chans := [(1, 0)], last :=
   decide
 
 end Amqp.C10
+
+/-! ## Re-opening a closed channel object (`Alloc.reopen`)
+
+`Channel.open()` is public and C08 speaks about re-opened channels, so an application may call it on
+a channel object it closed earlier.  The method does not consult the connection's registry
+(`skel_Channel_open`).  As long as the object is still the one registered under its number the
+invariant - and with it uniqueness - survives; once the number has been handed to a newer channel
+it does not: the unchanged code then has two channels in use with one number (a finding, replayed on
+the implementation by `props/c10.py`, history `stale-reopen`). -/
+namespace Amqp.C10
+open Amqp Amqp.Alloc
+
+/-- `Channel.open` as the model reads it: reset, OPENING, the Channel.Open RPC, OPEN - no look at
+    `Connection._channels` -/
+theorem skel_Channel_open : Gen.Skel.Channel_open =
+    ["r:_inbound", "call:_inbound.clear", "w:_returned_content_left", "w:_exceptions",
+     "w:_confirming_deliveries", "call:set_state", "call:rpc_request", "call:set_state"] := by decide
+
+/-- re-opening the object that is still registered under its number keeps every live channel the
+    registered one (so `live_distinct` continues to hold) -/
+theorem reopen_registered_inv (a a' : A) (o : Nat) (ob : Obj) (h : Inv a) (hob : a.objs[o]? = some ob)
+    (hreg : a.chans.lookup ob.cid = some o) (hr : reopen a o = some a') : Inv a' := by
+  simp only [reopen, hob] at hr
+  split at hr
+  · injection hr with hr; subst hr
+    intro o' ob' hob' hl'
+    rw [getElem?_setState] at hob'
+    split at hob'
+    · rename_i heq; subst heq
+      rw [hob] at hob'
+      simp only [Option.map_some, Option.some.injEq] at hob'
+      subst hob'
+      exact hreg
+    · exact h o' ob' hob' hl'
+  · cases hr
+
+/-- **Finding (negation witness)**: open a channel, close it, open another - it gets the same number,
+    as it should - and re-open the first object: two channel objects in use share number 1. -/
+theorem stale_reopen_shares_a_number :
+    ∃ a a' b1 b2, run (init 1) [.open_, .opened 0, .closeStart 0, .closed 0, .open_] = some a ∧
+      reopen a 0 = some a' ∧ a'.objs[0]? = some b1 ∧ a'.objs[1]? = some b2 ∧
+      b1.cid = b2.cid ∧ live b1 ∧ live b2 := by
+  refine ⟨_, _, _, _, rfl, rfl, rfl, rfl, rfl, ?_, ?_⟩ <;> (unfold live; decide)
+
+/-- `live_distinct` for histories that also contain re-opens of still-registered objects
+    (`…_partial`: re-opens of objects whose number was handed on are excluded - see the witness) -/
+inductive ReachableR (m : Nat) : A → Prop
+  | init : ReachableR m (init m)
+  | step (a a' : A) (x : Act) (r : Bool) : ReachableR m a → step a x = some (r, a') → ReachableR m a'
+  | reopen (a a' : A) (o : Nat) (ob : Obj) : ReachableR m a → a.objs[o]? = some ob →
+      a.chans.lookup ob.cid = some o → reopen a o = some a' → ReachableR m a'
+
+theorem reachableR_inv (m : Nat) (a : A) (hr : ReachableR m a) : Inv a := by
+  induction hr with
+  | init => exact inv_init m
+  | step a a' x r _ hs ih => exact step_inv a a' x r ih hs
+  | reopen a a' o ob _ hob hreg hro ih => exact reopen_registered_inv a a' o ob ih hob hreg hro
+
+theorem live_distinct_with_reopen_partial (m : Nat) (a : A) (hr : ReachableR m a) (o1 o2 : Nat) (b1 b2 : Obj)
+    (h1 : a.objs[o1]? = some b1) (h2 : a.objs[o2]? = some b2) (hc : b1.cid = b2.cid)
+    (l1 : live b1) (l2 : live b2) : o1 = o2 := by
+  have hinv : Inv a := reachableR_inv m a hr
+  have e1 := hinv o1 b1 h1 l1
+  have e2 := hinv o2 b2 h2 l2
+  rw [hc, e2] at e1
+  exact (Option.some.inj e1).symm
+
+end Amqp.C10
